@@ -39,6 +39,13 @@ fn reg_value(rng: &mut Rng) -> u32 {
     }
 }
 
+/// where the instruction stands: mostly a low text address; one case in four in another 256 MiB region (what MIPS
+/// j/jal splice into their target), across the sign boundary of 32-bit addresses, or high up
+fn pick_pc32(rng: &mut Rng) -> u32 {
+    let base = if rng.chance(3, 4) { 0x0040_0000 } else { *rng.pick(&[0x1000_0000u32, 0x7fff_c000, 0x8000_0000, 0x9040_0000, 0xefff_c000, 0xf000_0000]) };
+    base + 4 * rng.below(0x1000) as u32
+}
+
 // ------------------------------------------------------------------ MIPS
 
 fn mips_fields(rng: &mut Rng) -> (u32, u32, u32, u32) {
@@ -164,7 +171,7 @@ impl C02 {
         if is_branch && slot.is_none() {
             return;
         }
-        let pc: u32 = 0x0040_0000 + 4 * rng.below(0x1000) as u32;
+        let pc: u32 = pick_pc32(rng);
         let mut cpu0 = fixed.unwrap_or_else(|| {
             let mut c = MipsCpu::new(big);
             for i in 1..32 {
@@ -395,7 +402,7 @@ impl C02 {
     fn mips_block_case(&self, ctx: &mut Ctx, rng: &mut Rng, big: bool) {
         let arch = if big { "mips" } else { "mipsel" };
         let k = *rng.pick(&[0usize, 1, 2, 3, 5, 13, 14, 14, 15, 15, 16, 17]);
-        let pc: u32 = 0x0040_0000 + 4 * rng.below(0x1000) as u32;
+        let pc: u32 = pick_pc32(rng);
         let mut cpu0 = MipsCpu::new(big);
         for i in 1..32 {
             cpu0.gpr[i] = reg_value(rng);
@@ -702,7 +709,7 @@ impl C02 {
                 return;
             }
         }
-        let pc: u32 = 0x0040_0000 + 4 * rng.below(0x1000) as u32;
+        let pc: u32 = pick_pc32(rng);
         let mut cpu0 = PpcCpu { gpr: [0; 32], lr: 0, ctr: 0, cr: rng.u32() & 0xeeee_eeee, xer_so: false, xer_ov: false, xer_ca: rng.bool(), mem: Default::default() };
         for i in 0..32 {
             cpu0.gpr[i] = reg_value(rng);
@@ -953,7 +960,7 @@ impl C02 {
     /// covers are executed by ppcref one at a time and everything is compared.
     fn ppc_block_case(&self, ctx: &mut Ctx, rng: &mut Rng) {
         let k = rng.below(7) as usize;
-        let pc: u32 = 0x0040_0000 + 4 * rng.below(0x1000) as u32;
+        let pc: u32 = pick_pc32(rng);
         let mut cpu0 = PpcCpu { gpr: [0; 32], lr: 0, ctr: 0, cr: rng.u32() & 0xeeee_eeee, xer_so: false, xer_ov: false, xer_ca: rng.bool(), mem: Default::default() };
         for i in 0..32 {
             cpu0.gpr[i] = reg_value(rng);
